@@ -371,7 +371,8 @@ def rule_flag_table(res, rid, m):
     if len(cps) != 1:
         raise Broken("putPacket: expected one payload copy")
     chunk = strip_all_casts(cps[0][3]).get("decl")
-    idxv = [lvalue_root(x["e"]) for x in walk(m.loop_stmt.get("body", {})) if x.get("k") == "un" and x.get("op") in ("pre++", "post++")]
+    idxv = [lvalue_root(x["e"]) for part in (m.loop_stmt.get("body", {}), m.loop_stmt.get("inc") or {}) for x in walk(part)
+            if x.get("k") == "un" and x.get("op") in ("pre++", "post++")]
     idxv = [d for d in idxv if d and d.startswith("l") and d not in (posv,)]
 
     def arg_of(node):
